@@ -48,6 +48,8 @@ set_option linter.unusedSimpArgs false
     describeTupleType / describeTuple              → the `.tuple` arm (size mismatches are COUNT mismatches: `newCountMismatch`); loops →
                                                      `tupArrItems`, `tupTupItems` (only positions ≥ len(expected.types) are looked at, against
                                                      the LAST expected type: `expected.Types()[exl-1]` is the fault site `Fault.tupleLast`)
+    describeCallableType                           → the `.callable` arm, `callTail`, `callBlock` (`ep.(*types.TupleType)`: a parameters type is always a
+                                                     Tuple; for any other term the model describes it generically — total, and equal on every built type)
     describeAnyType                                → the default arm
   A loop body that recurses is an `Item.sub`; `descAll` runs the items in order (`append(descriptions, internalDescribe(...)...)`).
 
@@ -74,30 +76,12 @@ abbrev Path := List PE
 /-- `&pathElement{strconv.Itoa(n), kind}` -/
 def PE.nat (k : PK) (n : Nat) : PE := ⟨k, toString n⟩
 
-/-- a Callable without a block type (what a block type itself is): parameter tuple (types, given size) and return type, lattice terms;
-    its assignability and its description are modelled in DescribeCallable.lean -/
-structure CT0 where
-  params : Option (List Ty × Option Rng)
-  ret : Option Ty
-  deriving Repr, Inhabited
-
-/-- a block type: `Optional[Callable[…]]` (true) or `Callable[…]` -/
-abbrev Blk := Bool × CT0
-
-/-- `*types.CallableType {paramsType, returnType, blockType}` -/
-structure CT where
-  params : Option (List Ty × Option Rng)
-  ret : Option Ty
-  block : Option Blk
-  deriving Repr, Inhabited
-
-/-- a `px.Type` the describer can hold that is not a Variant built by a merge: a lattice term, one of the two members of
-    RichData that the term language does not have, or a Callable / Optional[Callable] (the block types of signatures) -/
+/-- a `px.Type` the describer can hold that is not a Variant built by a merge: a lattice term, or one of the two members of
+    RichData that the term language does not have -/
 inductive Atom where
   | ty (t : Ty)
   | typeSet
   | deferred
-  | callable (opt : Bool) (c : CT)
   deriving Repr, Inhabited
 
 /-- the `expectedType` of a type mismatch: a type as given (`atom`), or the Variant `mergeMismatch` built (`merged`) -/
@@ -122,7 +106,6 @@ inductive Mismatch where
   | extraneousKey (p : Path) (key : String)
   | unresolvedTypeReference (p : Path) (key : String)
   | typeMismatch (p : Path) (expected : Exp) (actual : Ty)
-  | typeMismatchC (p : Path) (expected : Exp) (actual : Bool × CT)     -- a typeMismatch whose actual type is (Optional of) a Callable
   | patternMismatch (p : Path) (expected : Ty) (actual : Ty)
   | sizeMismatch (p : Path) (expected actual : Rng)
   | countMismatch (p : Path) (expected actual : Rng)
@@ -140,14 +123,13 @@ def Mismatch.cls : Mismatch → Cls
   | .extraneousKey _ _ => .extraneousKey
   | .unresolvedTypeReference _ _ => .unresolvedTypeReference
   | .typeMismatch _ _ _ => .type
-  | .typeMismatchC _ _ _ => .type
   | .patternMismatch _ _ _ => .pattern
   | .sizeMismatch _ _ _ => .size
   | .countMismatch _ _ _ => .count
 
 def Mismatch.path : Mismatch → Path
   | .unexpectedBlock p | .missingRequiredBlock p | .missingKey p _ | .extraneousKey p _ | .unresolvedTypeReference p _
-  | .typeMismatch p _ _ | .typeMismatchC p _ _ | .patternMismatch p _ _ | .sizeMismatch p _ _ | .countMismatch p _ _ => p
+  | .typeMismatch p _ _ | .patternMismatch p _ _ | .sizeMismatch p _ _ | .countMismatch p _ _ => p
 
 /-- `withPath` -/
 def Mismatch.setPath (m : Mismatch) (q : Path) : Mismatch :=
@@ -158,7 +140,6 @@ def Mismatch.setPath (m : Mismatch) (q : Path) : Mismatch :=
   | .extraneousKey _ k => .extraneousKey q k
   | .unresolvedTypeReference _ k => .unresolvedTypeReference q k
   | .typeMismatch _ e a => .typeMismatch q e a
-  | .typeMismatchC _ e a => .typeMismatchC q e a
   | .patternMismatch _ e a => .patternMismatch q e a
   | .sizeMismatch _ e a => .sizeMismatch q e a
   | .countMismatch _ e a => .countMismatch q e a
@@ -198,14 +179,13 @@ where allO : List Ty → Bool
 def Atom.accepts (cfg : Cfg) (sfh : Bool) (x : Atom) (a : Ty) : Bool :=
   match x with
   | .ty t => asg cfg sfh t a
-  | .typeSet | .deferred | .callable _ _ => asgOpaque cfg sfh a    -- (a Callable is never a member the Variant loop meets)
+  | .typeSet | .deferred => asgOpaque cfg sfh a
 
-/-- `r.Equals(t, nil)` (CallableType.Equals answers true for ANY two Callables) -/
+/-- `r.Equals(t, nil)` -/
 def atomEq : Atom → Atom → Bool
   | .ty a, .ty b => tyEq a b
   | .typeSet, .typeSet => true
   | .deferred, .deferred => true
-  | .callable o _, .callable o' _ => o == o'
   | _, _ => false
 
 /-- `types.UniqueTypes`: first occurrence wins, compared with `Equals` (the earlier member is the receiver) -/
@@ -235,11 +215,7 @@ def mergeMismatch (m o : Mismatch) : Mismatch :=
   match m with
   | .typeMismatch p et a =>
       (match o with
-       | .typeMismatch _ ot _ | .typeMismatchC _ ot _ => .typeMismatch p (mergeExp et ot) a
-       | _ => m)
-  | .typeMismatchC p et a =>
-      (match o with
-       | .typeMismatch _ ot _ | .typeMismatchC _ ot _ => .typeMismatchC p (mergeExp et ot) a
+       | .typeMismatch _ ot _ => .typeMismatch p (mergeExp et ot) a
        | _ => m)
   | .sizeMismatch p e a =>
       (match o with
@@ -520,6 +496,32 @@ def variantTail (o a : Ty) (p : Path) : VRes → Res
     | .fault k => .fault k
     | .ok ds => if isAlias o && ds.length == 1 then .ok [.typeMismatch p (.ofTy o) a] else .ok ds
 
+/-- `append`-free sequencing of describeCallableType: the parameter errors, and only when there are none what follows -/
+def Res.orElse : Res → Res → Res
+  | .fault k, _ => .fault k
+  | .ok [], r => r
+  | .ok ds, _ => .ok ds
+
+/-- describeCallableType, the block: absent actual = Undef; a block type that does not accept it is a missing required block, any
+    other one a type mismatch below a `block` path element -/
+def callBlock (bl bl' : Option Ty) (p : Path) : Res :=
+  match bl with
+  | none => .ok []
+  | some eb =>
+    if asg cfg sfh eb (bl'.getD .undef) then .ok [] else
+    match bl' with
+    | none => .ok [.missingRequiredBlock p]
+    | some ab => .ok [.typeMismatch (p ++ [⟨.block, ""⟩]) (.ofTy eb) ab]
+
+/-- describeCallableType after the parameters: the return type (absent actual = Any; mismatch below a `return` path element), then the
+    block -/
+def callTail (rt bl rt' bl' : Option Ty) (p : Path) : Res :=
+  match rt with
+  | some er =>
+      if asg cfg sfh er (rt'.getD .any) then callBlock cfg sfh bl bl' p
+      else .ok [.typeMismatch (p ++ [⟨.ret, ""⟩]) (.ofTy er) (rt'.getD .any)]
+  | none => callBlock cfg sfh bl bl' p
+
 mutual
 /-- `internalDescribe(expected, original, actual, path)` -/
 def internalDescribe (e o a : Ty) (p : Path) : Res :=
@@ -578,6 +580,19 @@ def internalDescribe (e o a : Ty) (p : Path) : Res :=
            else if r.sub r' then .ok [.typeMismatch p (.ofTy o) (.array e' Rng.pos)]
            else .ok [.sizeMismatch p r r']
        | _ => .ok [.typeMismatch p (.ofTy o) a])
+  | .callable ps rt bl =>
+      -- describeCallableType: the parameters through describeArgumentTuple (= describeTuple(ep, ep, actual parameters or the default
+      -- Tuple, path): the SAME path, expected against actual — not in reverse as IsAssignable compares them), then `callTail`
+      (match a with
+       | .callable (some ap) rt' bl' =>
+           (match ps with
+            | some ep => Res.orElse (internalDescribe ep ep ap p) (callTail cfg sfh rt bl rt' bl' p)
+            | none => callTail cfg sfh rt bl rt' bl' p)
+       | .callable none rt' bl' =>
+           (match ps with
+            | some ep => Res.orElse (internalDescribe ep ep (.tuple [] (some Rng.pos)) p) (callTail cfg sfh rt bl rt' bl' p)
+            | none => callTail cfg sfh rt bl rt' bl' p)
+       | _ => .ok [.typeMismatch p (.ofTy o) a])
   | .optional t =>
       if isUndef a then .ok [] else internalDescribe t (if isAlias o then o else e) a p
   | .pattern _ => if asg cfg sfh e a then .ok [] else .ok [.patternMismatch p o a]
@@ -588,6 +603,7 @@ decreasing_by
   all_goals simp_wf
   all_goals first
     | (apply Prod.Lex.right; simp only [hw, hwl, hwlA_map, dataMembers, richMembers, hwlA, Atom.hw]; omega)
+    | (apply Prod.Lex.left; simp only [Ty.w, Ty.wo, Ty.wl]; omega)
     | (apply Prod.Lex.left; simp only [Ty.w]
        first
         | exact maxAW_structItems _ _ _
